@@ -311,7 +311,13 @@ def run_case(case, work, rec):
         digest = common.sha(case["gen"])
         rec.sample({"plotfile": gen.describe(m), "fmt": case.get("fmt")})
     pools.CTL.reset(mode="inproc", seed=case["sel_seed"])
-    pck = PlotfileCooker(path)
+    # every other case the reader also carries the min/max tables of the level headers (maxmins=True: what menu,
+    # marinate and pestle's callers use); what a read returns must not depend on it
+    if case["sel_seed"] % 2 == 1:
+        pck = PlotfileCooker(path, maxmins=True)
+        rec.count("readers_opened_with_minmax_tables")
+    else:
+        pck = PlotfileCooker(path)
     keys = list(pck.fields.keys())
     nl = len(data)
     nf = len(names)
